@@ -3,6 +3,7 @@
 From Coq Require Import String Permutation.
 From Verif Require Import Base.Str Base.Lines Base.Outcome Regex.Re Regex.Equiv Model.Patterns Model.ParseLine Model.Passes Model.CmdLine Model.Parser Model.Assembler Model.Generate.
 From Verif Require Import Proofs.EquivSound Proofs.PassesProofs Proofs.CmdLineProofs Proofs.ParserProofs Proofs.AssemblerProofs.
+From Verif Require Tie.Pin_lits_regex_operators_assembler_removeUnescapedMatches.
 From Verif Require Tie.Pin_perlSpaceClassRegexp_src Tie.Pin_const_regex_operators_assembler_perlSpaceClass.
 From Verif Require Tie.Pin_lits_regex_processors_assemble_Assemble_append Tie.Pin_lits_regex_processors_assemble_Assemble_store Tie.Pin_lits_regex_processors_assemble_Assemble_runAssemble Tie.Pin_lits_regex_processors_assemble_Assemble_wrapCompletedAssembly Tie.Pin_lits_regex_processors_assemble_Assemble_ProcessLine Tie.Pin_lits_regex_processors_assemble_Assemble_Complete Tie.Pin_lits_regex_operators_assembler_Operator_Run Tie.Pin_lits_regex_operators_assembler_Operator_assemble Tie.Pin_lits_regex_operators_assembler_Operator_complete Tie.Pin_lits_regex_operators_assembler_Operator_runFinalPass Tie.Pin_lits_regex_operators_assembler_Operator_runSimplificationAssembly Tie.Pin_lits_regex_operators_assembler_Operator_startPreprocessor Tie.Pin_lits_regex_operators_assembler_Operator_endPreprocessor Tie.Pin_ProcessorStartRegex_src Tie.Pin_ProcessorEndRegex_src Tie.Pin_AssembleInputRegex_src Tie.Pin_AssembleOutputRegex_src Tie.Pin_lits_regex_operators_operators_ProcessorStack_pop Tie.Pin_lits_regex_operators_operators_ProcessorStack_top Tie.Pin_lits_regex_parser_parser_Parser_Parse Tie.Pin_lits_regex_parser_parser_Parser_parseLine.
 Open Scope N_scope.
